@@ -127,6 +127,17 @@ func aimedAMs(caps amCaps) []*amSchema {
 		}
 		out = append(out, mk(objs...))
 	}
+	// 6. enums whose members need care when turned into identifiers
+	if caps.Enums {
+		out = append(out, mk(
+			&amObject{"Codes", enumS("1", "2", "12")},
+			&amObject{"Styles", enumS("dark-mode", "x_y", "UP", "down under")},
+			&amObject{"Themed", st(
+				fld("code", true, rf("Codes")), fld("style", false, rf("Styles")),
+				fld("inlineCode", false, enumS("10", "20")), fld("codes", false, arr(rf("Codes"))),
+			)},
+		))
+	}
 	return out
 }
 
